@@ -167,6 +167,9 @@ def unfiltered_rule(ctx, index, rule, entry_fn):
                                         w2 = selection(r_.value, params[i])
                                         if w2:
                                             bad = (st, f"{cal.short} returns a part of it: {w2}")
+                                w3 = _keyed_dedupe(cal.node, params[i])
+                                if w3:
+                                    bad = (st, f"{cal.short} returns a part of it: {w3}")
             if isinstance(st, ast.Expr) and isinstance(st.value, ast.Call) and isinstance(st.value.func, ast.Attribute) and isinstance(st.value.func.value, ast.Name) \
                     and st.value.func.value.id == name and st.value.func.attr in ("difference_update", "intersection_update", "discard", "remove", "pop"):
                 bad = (st, f"`{norm_text(st)[:80]}` removes elements")
@@ -174,6 +177,39 @@ def unfiltered_rule(ctx, index, rule, entry_fn):
                     "the parameter is never re-bound to a selection of itself",
                     (f"`{norm_text(bad[0])[:90]}`: {bad[1]} — the dropped tensors were requested by the caller and their .grad is neither created nor updated") if bad else "",
                     entry_fn.loc(bad[0]) if bad else entry_fn.loc())
+
+
+def _keyed_dedupe(fn_node, pname):
+    """The function keeps ONE element of `pname` per value of a key computed from the element (`d.setdefault(key(x), x)`, `d[key(x)] = x`,
+    `{key(x): x for x in xs}`) and returns the kept ones: elements that are different objects with equal keys are dropped."""
+    def derived(k, x):
+        return not (isinstance(k, ast.Name) and k.id == x) and any(isinstance(n, ast.Name) and n.id == x for n in ast.walk(k)) \
+            and not (isinstance(k, ast.Call) and isinstance(k.func, ast.Name) and k.func.id == "id" and len(k.args) == 1 and isinstance(k.args[0], ast.Name))  # (id(x) is the identity)
+
+    tables = {}
+    for l_ in ast.walk(fn_node):
+        if isinstance(l_, ast.For) and isinstance(l_.iter, ast.Name) and l_.iter.id == pname and isinstance(l_.target, ast.Name):
+            x = l_.target.id
+            for c_ in ast.walk(l_):
+                if isinstance(c_, ast.Call) and isinstance(c_.func, ast.Attribute) and c_.func.attr == "setdefault" and len(c_.args) == 2 and isinstance(c_.func.value, ast.Name) \
+                        and isinstance(c_.args[1], ast.Name) and c_.args[1].id == x and derived(c_.args[0], x):
+                    tables[c_.func.value.id] = c_
+                if isinstance(c_, ast.Assign) and len(c_.targets) == 1 and isinstance(c_.targets[0], ast.Subscript) and isinstance(c_.targets[0].value, ast.Name) \
+                        and isinstance(c_.value, ast.Name) and c_.value.id == x and derived(c_.targets[0].slice, x):
+                    tables[c_.targets[0].value.id] = c_
+    for a_ in ast.walk(fn_node):
+        if isinstance(a_, ast.Assign) and len(a_.targets) == 1 and isinstance(a_.targets[0], ast.Name) and isinstance(a_.value, ast.DictComp) and len(a_.value.generators) == 1:
+            g = a_.value.generators[0]
+            if isinstance(g.iter, ast.Name) and g.iter.id == pname and isinstance(g.target, ast.Name) and isinstance(a_.value.value, ast.Name) and a_.value.value.id == g.target.id \
+                    and derived(a_.value.key, g.target.id):
+                tables[a_.targets[0].id] = a_.value
+    for r_ in ast.walk(fn_node):
+        if isinstance(r_, ast.Return) and r_.value is not None:
+            for n in ast.walk(r_.value):
+                if isinstance(n, ast.Call) and isinstance(n.func, ast.Attribute) and n.func.attr == "values" and isinstance(n.func.value, ast.Name) and n.func.value.id in tables:
+                    w = tables[n.func.value.id]
+                    return f"`{norm_text(w)[:80]}` keeps one element per value of a key computed from it: two different tensors with the same key (views of one buffer, parameters sharing their data) collapse into one"
+    return None
 
 
 def _scan_param(index, fi, name, nested, depth):
